@@ -11,80 +11,276 @@ import DC.Proofs.Files
 namespace DC.Cache
 
 theorem good_init (c : Cfg) (st : Bool) : Good ({ cfg := c, statistics := st } : Cache) := by
-  sorry
+  apply good_of_pi (inv_init c st)
+  constructor <;> simp [core]
 
 /-- `Good` implies C08's consistency predicate (what `check()` verifies) -/
-theorem good_consistent (s : Cache) (h : Good s) : Consistent s := by
-  sorry
+theorem good_consistent (s : Cache) (h : Good s) : Consistent s :=
+  ⟨h.tinv.tbl.count, h.tinv.tbl.size, h.finv.ref, h.noOrphan⟩
 
 theorem set_good (s : Cache) (E : Externals) (now : Int) (k v : PyVal) (ttl : Option Int) (read : Bool)
-    (tag : SqlVal) (h : Good s) : Good (s.set E now k v ttl read tag).1 := by
-  sorry
+    (tag : SqlVal) (h : Good s) : Good (s.set E now k v ttl read tag).1 :=
+  good_of_pi (set_inv s E now k v ttl read tag h.tinv) (set_PI s E now k v ttl read tag h.pi)
 
 theorem add_good (s : Cache) (E : Externals) (now : Int) (k v : PyVal) (ttl : Option Int) (read : Bool)
     (tag : SqlVal) (h : Good s) : Good (s.add E now k v ttl read tag).1 := by
-  sorry
+  apply good_of_pi (add_inv s E now k v ttl read tag h.tinv)
+  have hP := h.pi
+  unfold add
+  simp only
+  cases hst : s.store E v read with
+  | error e => exact hP
+  | ok p =>
+    obtain ⟨s1, c⟩ := p
+    obtain ⟨hP1, hfile⟩ := store_PI hst hP
+    simp only
+    apply transact_PI _ _ _ _ hP1.depth
+    split
+    · right; exact ⟨rfl, rfl, hP1.cl_congr (by simp)⟩
+    simp only [selKey_log]
+    split
+    · rename_i r hr
+      split
+      · left; exact ⟨rfl, by core_simp; exact hP1.cl_congr (by simp)⟩
+      split
+      · right; exact ⟨rfl, rfl, hP1.cl_congr (by simp)⟩
+      left
+      refine ⟨rfl, ?_⟩
+      simp only [List.append_nil]
+      apply cullW_PI
+      refine PI_updRow (cl := [c.file]) ?_ r (selKey_mem hr) now _ ?_ ?_
+      · first | exact hP1 | (core_simp; exact hP1)
+      · intro g hg; exact ⟨List.mem_singleton.2 hg.symm, hfile g hg⟩
+      · intro f; simp; grind
+    · split
+      · right; exact ⟨rfl, rfl, hP1.cl_congr (by simp)⟩
+      left
+      refine ⟨rfl, ?_⟩
+      simp only [List.append_nil]
+      have := cullW_PI (((s1.log .begin).logSql "selKey").insRow (DC.put E s.cfg.disk k).1 (DC.put E s.cfg.disk k).2 now
+          { c with expT := ttl.map (now + ·), tag := tag }) now [] ?_
+      · simpa using this
+      refine PI_insRow (cl := [c.file]) ?_ _ _ _ _ ?_ ?_
+      · first | exact hP1 | (core_simp; exact hP1)
+      · intro g hg; exact ⟨List.mem_singleton.2 hg.symm, hfile g hg⟩
+      · intro f; simp; grind
 
 theorem touch_good (s : Cache) (E : Externals) (now : Int) (k : PyVal) (ttl : Option Int)
     (h : Good s) : Good (s.touch E now k ttl).1 := by
-  sorry
+  apply good_of_pi (touch_inv s E now k ttl h.tinv)
+  have hP := h.pi
+  unfold touch
+  simp only
+  apply transact_PI _ _ _ _ h.depth
+  left
+  simp only [selKey_log]
+  split
+  · split
+    · exact ⟨rfl, by apply PI_updExp; core_simp; exact hP⟩
+    · exact ⟨rfl, by core_simp; exact hP⟩
+  · exact ⟨rfl, by core_simp; exact hP⟩
 
 theorem incr_good (s : Cache) (E : Externals) (now : Int) (k : PyVal) (delta : Int) (dflt : Option Int)
     (h : Good s) : Good (s.incr E now k delta dflt).1 := by
-  sorry
+  apply good_of_pi (incr_inv s E now k delta dflt h.tinv)
+  have hP := h.pi
+  have hP0 : PI (core ((s.log .begin).logSql "selKey")) [] := by core_simp; exact hP
+  have hfailP : PI (core s) [none] := hP.cl_congr (by simp)
+  unfold incr
+  simp only
+  apply transact_PI _ _ _ _ h.depth
+  simp only [selKey_log]
+  split
+  · split
+    · right; exact ⟨rfl, rfl, hfailP⟩
+    · split
+      · right; exact ⟨rfl, rfl, hfailP⟩
+      · rename_i s1 c hst
+        obtain ⟨hP1, hfile⟩ := store_PI hst hP0
+        left
+        refine ⟨rfl, ?_⟩
+        simp only [List.append_nil]
+        have := cullW_PI (s1.insRow (DC.put E s.cfg.disk k).1 (DC.put E s.cfg.disk k).2 now c) now [] ?_
+        · simpa using this
+        refine PI_insRow (cl := [c.file]) hP1 _ _ _ _ ?_ ?_
+        · intro g hg; exact ⟨List.mem_singleton.2 hg.symm, hfile g hg⟩
+        · intro f; simp; grind
+  · rename_i r hr
+    split
+    · split
+      · right; exact ⟨rfl, rfl, hfailP⟩
+      · split
+        · right; exact ⟨rfl, rfl, hfailP⟩
+        · rename_i s1 c hst
+          obtain ⟨hP1, hfile⟩ := store_PI hst hP0
+          have hr1 : r ∈ s1.rows := by rw [(store_keep hst).1]; exact selKey_mem hr
+          left
+          refine ⟨rfl, ?_⟩
+          have := cullW_PI (s1.updRow r.rowid now c) now [r.file] ?_
+          · exact this.cl_congr (by intro f; simp [or_comm])
+          refine PI_updRow (cl := [c.file]) hP1 r hr1 now _ ?_ ?_
+          · intro g hg; exact ⟨List.mem_singleton.2 hg.symm, hfile g hg⟩
+          · intro f; simp; grind
+    · split
+      · split
+        · left; exact ⟨rfl, by apply PI_updIncr; exact hP0⟩
+        · right; exact ⟨rfl, rfl, hfailP⟩
+      · right; exact ⟨rfl, rfl, hfailP⟩
 
 theorem get_good (s : Cache) (E : Externals) (now : Int) (k : PyVal) (read et tg : Bool)
     (h : Good s) : Good (s.get E now k read et tg).1 := by
-  sorry
+  apply good_of_pi (get_inv s E now k read et tg h.tinv)
+  have hP := h.pi
+  unfold get
+  simp only
+  split
+  · split
+    · core_simp; exact hP
+    · split <;> (core_simp; exact hP)
+  · apply transact_PI _ _ _ _ h.depth
+    left
+    simp only [selLive_log]
+    split
+    · refine ⟨rfl, ?_⟩
+      split <;> (core_simp; exact hP)
+    · split
+      · refine ⟨rfl, ?_⟩
+        split <;> (core_simp; exact hP)
+      · refine ⟨rfl, ?_⟩
+        simp only [List.nil_append]
+        (repeat' split) <;> first | (core_simp; exact hP) | (apply PI_updGet; core_simp; exact hP)
 
 theorem pop_good (s : Cache) (E : Externals) (now : Int) (k : PyVal) (et tg : Bool)
     (h : Good s) : Good (s.pop E now k et tg).1 := by
-  sorry
-
-theorem delete_good (s : Cache) (E : Externals) (now : Int) (k : PyVal)
-    (h : Good s) : Good (s.delete E now k).1 := by
-  sorry
+  apply good_of_pi (pop_inv s E now k et tg h.tinv)
+  have hP := h.pi
+  unfold pop
+  simp only
+  split
+  · rename_i hr
+    simp only
+    apply transact_PI _ _ _ _ h.depth
+    left
+    exact ⟨rfl, by core_simp; exact hP⟩
+  · rename_i r hr
+    simp only
+    have h1 : PI (core (s.transact fun s => { s := (s.logSql "selLive").delRow r.rowid, out := Out.none }).1) [r.file] := by
+      apply transact_PI _ _ _ _ h.depth
+      left
+      refine ⟨rfl, ?_⟩
+      have := PI_delRow (s := (s.log .begin).logSql "selLive") (cl := []) (by core_simp; exact hP) r (selLive_mem hr)
+      simpa using this
+    have h2 : ∀ t : Cache, PI (core t) [r.file] → PI (core (t.removeCommitted r.file)) [] := by
+      intro t ht
+      rw [removeCommitted_zero _ _ ht.depth, core_fremoveAll]
+      exact PI.finish (cl := [r.file]) (extra := []) (by simpa using ht)
+    split <;> (apply h2; core_simp; exact h1)
 
 theorem delitem_good (s : Cache) (E : Externals) (now : Int) (k : PyVal)
     (h : Good s) : Good (s.delitem E now k).1 := by
-  sorry
+  apply good_of_pi (delitem_inv s E now k h.tinv)
+  have hP := h.pi
+  unfold delitem
+  simp only
+  apply transact_PI _ _ _ _ h.depth
+  simp only [selLive_log]
+  split
+  · right
+    exact ⟨rfl, rfl, hP.cl_congr (by simp)⟩
+  · rename_i r hr
+    left
+    refine ⟨rfl, ?_⟩
+    have := PI_delRow (s := (s.log .begin).logSql "selLive") (cl := []) (by core_simp; exact hP) r (selLive_mem hr)
+    simpa using this
+
+theorem delete_good (s : Cache) (E : Externals) (now : Int) (k : PyVal)
+    (h : Good s) : Good (s.delete E now k).1 := by
+  rw [delete_fst_fl]; exact delitem_good s E now k h
 
 theorem push_good (s : Cache) (E : Externals) (now : Int) (v : PyVal) (pfx : Option Str) (back : Bool)
     (ttl : Option Int) (read : Bool) (tag : SqlVal) (h : Good s) :
     Good (s.push E now v pfx back ttl read tag).1 := by
-  sorry
+  apply good_of_pi (push_inv s E now v pfx back ttl read tag h.tinv)
+  have hP := h.pi
+  unfold push
+  cases hst : s.store E v read with
+  | error e => exact hP
+  | ok p =>
+    obtain ⟨s1, c⟩ := p
+    obtain ⟨hP1, hfile⟩ := store_PI hst hP
+    simp only
+    apply transact_PI _ _ _ _ hP1.depth
+    have hfailP : PI (core s1) [c.file] := hP1
+    split
+    · right; exact ⟨rfl, rfl, hfailP.cl_congr (by simp)⟩
+    · rename_i num _
+      split
+      · right; exact ⟨rfl, rfl, hfailP.cl_congr (by simp)⟩
+      split
+      · right; exact ⟨rfl, rfl, hfailP.cl_congr (by simp)⟩
+      left
+      refine ⟨rfl, ?_⟩
+      simp only [List.append_nil]
+      have := cullW_PI (((s1.log .begin).logSql "selQueueEnd").insRow (queueKey pfx num) true now
+          { c with expT := ttl.map (now + ·), tag := tag }) now [] ?_
+      · simpa using this
+      refine PI_insRow (cl := [c.file]) ?_ _ _ _ _ ?_ ?_
+      · first | exact hP1 | (core_simp; exact hP1)
+      · intro g hg; exact ⟨List.mem_singleton.2 hg.symm, hfile g hg⟩
+      · intro f; simp; grind
 
 theorem pull_good (s : Cache) (E : Externals) (now : Int) (pfx : Option Str) (front et tg : Bool)
-    (h : Good s) : Good (s.pull E now pfx front et tg).1 := by
-  sorry
+    (h : Good s) : Good (s.pull E now pfx front et tg).1 :=
+  good_of_pi (pull_inv s E now pfx front et tg h.tinv) (pullLoop_PI _ _ _ _ _ _ _ _ h.pi)
 
 theorem peek_good (s : Cache) (E : Externals) (now : Int) (pfx : Option Str) (front et tg : Bool)
-    (h : Good s) : Good (s.peek E now pfx front et tg).1 := by
-  sorry
+    (h : Good s) : Good (s.peek E now pfx front et tg).1 :=
+  good_of_pi (peek_inv s E now pfx front et tg h.tinv) (peekLoop_PI _ _ _ _ _ _ _ _ h.pi)
 
 theorem peekitem_good (s : Cache) (E : Externals) (now : Int) (last et tg : Bool)
-    (h : Good s) : Good (s.peekitem E now last et tg).1 := by
-  sorry
+    (h : Good s) : Good (s.peekitem E now last et tg).1 :=
+  good_of_pi (peekitem_inv s E now last et tg h.tinv) (peekitemLoop_PI _ _ _ _ _ _ _ h.pi)
 
 theorem clear_good (s : Cache) (h : Good s) : Good (s.clear).1 := by
-  sorry
+  apply good_of_pi (clear_inv s h.tinv)
+  unfold clear; simp only
+  exact clearLoop_PI _ _ _ _ h.pi
 
 theorem evict_good (s : Cache) (tag : SqlVal) (h : Good s) : Good (s.evict tag).1 := by
-  sorry
+  apply good_of_pi (evict_inv s tag h.tinv)
+  unfold evict; simp only
+  exact evictLoop_PI _ _ _ _ _ h.pi
 
 theorem expire_good (s : Cache) (now : Int) (h : Good s) : Good (s.expire now).1 := by
-  sorry
+  apply good_of_pi (expire_inv s now h.tinv)
+  unfold expire; simp only
+  exact expireLoop_PI _ _ _ _ _ h.pi
 
 theorem cull_good (s : Cache) (now : Int) (h : Good s) : Good (s.cull now).1 := by
-  sorry
+  apply good_of_pi (cull_inv s now h.tinv)
+  unfold cull
+  simp only
+  split
+  · exact expireLoop_PI _ _ _ _ _ h.pi
+  · exact cullLoop_PI _ _ _ (expireLoop_PI _ _ _ _ _ h.pi)
 
 /-- a whole transaction block that commits, or that rolls back at any point, ends in a
 `Good` state again when it started from one and every inner call is one of the above;
 the two bracketing steps: -/
 theorem tbegin_tend_good (s : Cache) (h : Good s) : Good s.tbegin.tend := by
-  sorry
+  apply good_of_pi (tend_inv _ (tbegin_inv _ h.tinv))
+  have hP := h.pi
+  have : core s.tbegin.tend = core s := by
+    unfold tbegin tend
+    simp [h.depth, fremoveAll, core, log, h.snap, h.pending, h.created]
+  rw [this]; exact hP
 
 theorem tbegin_traise_good (s : Cache) (h : Good s) : Good (s.tbegin.traise 1) := by
-  sorry
+  apply good_of_pi (traise_inv _ _ (tbegin_inv _ h.tinv))
+  have hP := h.pi
+  have : core (s.tbegin.traise 1) = core s := by
+    unfold tbegin traise
+    simp [h.depth, fremoveAll, core, log, h.snap, h.pending, h.created, restore, takeSnap]
+  rw [this]; exact hP
 
 end DC.Cache
